@@ -48,6 +48,7 @@ type usesUnresolved struct {
 
 type usesResolved struct {
 	grouping *Grouping
+	parent   HasDataDefinitions
 	defs     []Definition
 }
 
@@ -512,6 +513,10 @@ func (r *resolver) expandUses(parent HasDataDefinitions, u *Uses) ([]Definition,
 	var added []Definition
 	resolved, recursive := r.inProgressUses[g]
 	if recursive {
+		if resolved.parent == parent {
+			// no data node between the grouping and the uses of itself: nothing finite to expand to
+			return nil, fmt.Errorf("%s - grouping %s uses itself", SchemaPath(u), g.Ident())
+		}
 		return r.delayRecursiveUses(parent, u, resolved)
 	}
 
@@ -519,7 +524,7 @@ func (r *resolver) expandUses(parent HasDataDefinitions, u *Uses) ([]Definition,
 		fc.Debug.Printf("USE %s:%s", parent.Ident(), u.Ident())
 	}
 
-	resolved = &usesResolved{grouping: g}
+	resolved = &usesResolved{grouping: g, parent: parent}
 	r.inProgressUses[g] = resolved
 
 	// resolve all children
